@@ -393,6 +393,9 @@ func (g *genState) genAddUni() {
 	if g.r.Chance(1, 2) {
 		d = p[0]
 	}
+	if g.r.Chance(1, 16) {
+		d = g.foreignDenom(p[0])
+	}
 	T := g.w.bal(1000+p[1], d)
 	x := g.part(pos(T))
 	if g.r.Chance(1, 10) {
@@ -449,10 +452,13 @@ func (g *genState) genSend() {
 		if ps := g.w.pools(); len(ps) > 0 && g.r.Chance(3, 4) {
 			p := ps[g.r.Intn(len(ps))]
 			st.B = 1000 + p[1]
-			if g.r.Chance(1, 2) {
+			switch g.r.Weighted(4, 4, 3) {
+			case 0:
 				st.D1 = p[0]
-			} else {
+			case 1:
 				st.D1 = 0
+			case 2:
+				st.D1 = g.foreignDenom(p[0]) // a denom this pool does not trade
 			}
 		}
 		st.X1 = g.part(pos(g.w.bal(st.B, st.D1))).String()
@@ -478,6 +484,62 @@ func (g *genState) genSend() {
 		st.X1 = "10"
 	}
 	g.push(st)
+}
+
+// a bank denom that is neither the standard denom nor the counterparty denom cp
+func (g *genState) foreignDenom(cp int) int {
+	d := 1 + g.r.Intn(3)
+	if d == cp {
+		d = 1 + d%3
+	}
+	return d
+}
+
+// a denom that is not the pool's: somebody sends an unrelated coin to a pool escrow address (a donation)
+// and then a one-sided add / remove, a two-sided add or a swap names a denom the pool does not trade
+func (g *genState) genForeignDenom() {
+	ps := g.w.pools()
+	if len(ps) == 0 {
+		g.genSend()
+		return
+	}
+	p := ps[g.r.Intn(len(ps))]
+	u := g.foreignDenom(p[0])
+	if g.w.bal(1000+p[1], u).Sign() == 0 || g.r.Chance(1, 3) {
+		amt := g.amount()
+		if g.r.Chance(1, 3) {
+			amt = big.NewInt(int64(1 + g.r.Intn(3)))
+		}
+		g.push(Step{K: "send", A: g.user(), B: 1000 + p[1], D1: u, X1: amt.String()})
+	}
+	held := pos(g.w.bal(1000+p[1], u))
+	switch g.r.Weighted(10, 4, 2, 2) {
+	case 0: // one-sided add offering the unrelated denom
+		x := g.part(held)
+		if g.r.Chance(1, 2) {
+			x = g.amount()
+		}
+		g.push(Step{K: "addu", A: g.user(), D1: p[0], D2: u, X1: x.String(), X2: "0", Deadline: g.now() + 50})
+	case 1: // one-sided remove asking for the unrelated denom
+		a, have := g.holder(p[1])
+		g.push(Step{K: "remu", A: a, D1: p[0], D2: u, X1: "1", X2: g.part(pos(have)).String(), Deadline: g.now() + 50})
+	case 2: // two-sided add naming the standard denom or an LPT denom as the token
+		d := 0
+		if g.r.Chance(1, 2) {
+			d = 1000 + p[1]
+		}
+		g.push(Step{K: "add", A: g.user(), D1: d, X1: g.amount().String(), X2: g.amount().String(), X3: "0", Deadline: g.now() + 50})
+	case 3: // swap with an LPT denom, or the same denom on both sides
+		st := Step{K: "swap", Buy: g.r.Chance(1, 2), A: g.user(), D1: p[0], D2: 1000 + p[1], X1: g.amount().String(), X2: "1", Deadline: g.now() + 50}
+		st.B = st.A
+		switch g.r.Intn(3) {
+		case 0:
+			st.D1, st.D2 = 1000+p[1], 0
+		case 1:
+			st.D2 = p[0]
+		}
+		g.push(st)
+	}
 }
 
 // MsgUpdateParams mid-history: mostly by the authority with valid parameters, sometimes by a
@@ -565,6 +627,10 @@ func gen(r *lib.Rand, tier, stream string, i int) History {
 		}
 		if r.Chance(1, 22) {
 			g.genParamsStep()
+			continue
+		}
+		if r.Chance(1, 14) {
+			g.genForeignDenom()
 			continue
 		}
 		switch r.Weighted(40, 10, 9, 8, 8, 7, 5, 2) {
